@@ -150,7 +150,7 @@ func (g *c12Gen) boolean(p string) string {
 func (g *c12Gen) item(p string, i int, top bool) string {
 	alias := fmt.Sprintf("c%d", i)
 	kinds := []string{"col", "num", "str", "bool", "null", "tuple", "array", "subquery", "exists", "async", "backref", "nestedcol", "first", "last", "elementat", "once", "objcol", "fuse", "asyncstr", "subquery_async",
-		"fuse_sub", "await", "star_sub", "selector"}
+		"fuse_sub", "await", "star_sub", "selector", "hash", "encode"}
 	if !top || p != "" {
 		kinds = []string{"col", "num", "str", "bool", "null", "tuple", "array", "async", "objcol"}
 	}
@@ -203,6 +203,14 @@ func (g *c12Gen) item(p string, i int, top bool) string {
 		return fmt.Sprintf("ELEMENTAT(n, 0) AS %s", alias)
 	case "fuse":
 		return "FUSE(o)"
+	case "hash":
+		return fmt.Sprintf("HASH(%s, %s) AS %s", g.pick("hash_arg", p+"s", p+"a", p+"id", "'lit'"), sqlLit(g.pick("hash_fn", "sha1", "sha256", "sha512", "md5")), alias)
+	case "encode":
+		base := sqlLit(g.pick("enc_base", "base64", "base32", "hex"))
+		if g.pick("enc_round", "enc", "roundtrip") == "enc" {
+			return fmt.Sprintf("ENCODE(%s, %s) AS %s", g.pick("enc_arg", p+"s", p+"a", "'lit'"), base, alias)
+		}
+		return fmt.Sprintf("DECODE(ENCODE(%ss, %s), %s) AS %s", p, base, base, alias)
 	case "fuse_sub":
 		return fmt.Sprintf("FUSE((%s))", g.pick("fuse_sub_q", "SELECT * FROM dual", "SELECT ip FROM `<-"+g.root+"meta`", "SELECT p, q FROM o", "SELECT *, 1 AS one FROM o"))
 	case "star_sub":
@@ -427,6 +435,14 @@ func evalC12(b *Bundle, r *Runner) []*Violation {
 		infra("C12: bad expectation: %v", err)
 	}
 	cases := append([]casefmt.Case{b.Case}, c12Variants(&b.Case, exp.Sites)...)
+	// configuration 0 evaluates the query twice in one process: the repetition the statement talks about
+	// includes one by the same caller, with whatever the first evaluation left in caches and pools
+	{
+		c0 := cases[0]
+		op := c0.Clients[0].Ops[0]
+		c0.Clients = []casefmt.Client{{Name: "client0", Ops: []casefmt.Op{op, op}}}
+		cases[0] = c0
+	}
 	var firstOp *casefmt.OpObs
 	var firstObs *casefmt.Obs
 	for ci := range cases {
@@ -439,6 +455,23 @@ func evalC12(b *Bundle, r *Runner) []*Violation {
 		op := &o.Ops[0]
 		if ci == 0 {
 			firstOp, firstObs = op, o
+			if len(o.Ops) == 2 {
+				again := &o.Ops[1]
+				same := opOutcome(again) == opOutcome(op)
+				if same && opOutcome(op) == "ok" && string(again.Rows) != string(op.Rows) {
+					same = false
+					if !exp.SeqFixed {
+						x, ok1 := asArray(normJSON(op.Rows))
+						y, ok2 := asArray(normJSON(again.Rows))
+						same = ok1 && ok2 && multisetEqual(x, y)
+					}
+				}
+				if !same {
+					return []*Violation{mkViolation(b, "RESULT_NONDETERMINISTIC", "repeat_in_process shape:"+exp.Shape, fmt.Sprintf("%s\n first evaluation : %s %s%s %s\n second evaluation in the same process: %s %s%s %s", exp.Query,
+						opOutcome(op), op.NewErr, op.ExecErr, compact(op.Rows), opOutcome(again), again.NewErr, again.ExecErr, compact(again.Rows)), o)}
+				}
+				r.Stats.probe("repeated_in_one_process")
+			}
 		}
 		if opOutcome(op) != opOutcome(firstOp) {
 			return []*Violation{mkViolation(b, "OUTCOME_NONDETERMINISTIC", "shape:"+exp.Shape, fmt.Sprintf("%s\n configuration 0 (%s/%s): %s %s%s\n configuration %d (%s/%s): %s %s%s", exp.Query,
